@@ -148,8 +148,6 @@ class RefineChecker:
                                   "msg": f"flip {flip['n']} by {flip['actor']} wrote an unusable pointer {flip['new']!r}"})
             return
         res = dict(rec.get("resolved", {})) if rec else {}
-        if rec is not None:
-            rec.setdefault("flips", []).append(flip["n"])
         if flip["old"] is None and not res:
             res = {"init": True}
         probs = model.refine(P, N, res, self.commit_order)
@@ -325,3 +323,80 @@ def generic_shrink(plan: dict):
 def fresh_scratch(scratch: str) -> None:
     shutil.rmtree(scratch, ignore_errors=True)
     os.makedirs(scratch, exist_ok=True)
+
+
+# ---------------------------------------------------------------------------- snapshots of the world
+class Snapshot:
+    """Copy of the storage (local tree incl. mtimes, or the S3 store) taken between phases, so a
+    fault sweep can restart an operation from the same durable state many times."""
+
+    def __init__(self, ph: Phase):
+        self.backend = ph.world.backend
+        self.now = ph.sim.now
+        self.scratch = ph.world.scratch
+        if self.backend == "local":
+            self.root = ph.world.root
+            self.copy = os.path.join(self.scratch, "_snap")
+            shutil.rmtree(self.copy, ignore_errors=True)
+            if os.path.isdir(self.root):
+                shutil.copytree(self.root, self.copy, symlinks=True)
+            else:
+                self.copy = None
+            self.store = None
+        else:
+            self.store = ph.world.store
+            self.snap = ph.world.store.snapshot()
+
+    def restore(self):
+        if self.backend == "local":
+            shutil.rmtree(self.root, ignore_errors=True)
+            if self.copy is not None:
+                shutil.copytree(self.copy, self.root, symlinks=True)
+            return None
+        self.store.restore(self.snap)
+        return self.store
+
+
+def state_key(st: Optional[ir.TableState]):
+    """Comparable identity of a table state (what 'exactly the pre-state / post-state' means)."""
+    if st is None:
+        return None
+    return (st.uuid, st.current_id, st.last_seq, tuple(sorted(st.props.items())),
+            tuple((s.id, None if s.parent in (None, -1) else s.parent, s.seq, s.ts, s.mlist,
+                   tuple(sorted((p, f.sha) for p, f in s.files.items()))) for s in st.snaps),
+            tuple(st.snapshot_log))
+
+
+def listing(w: world.World) -> set:
+    return set(w.view().list(""))
+
+
+def merge_results(results: List[dict], plan: dict, config: str) -> dict:
+    """Fold sub-run results (one per fault point) into one result record for the runner."""
+    out = {"outcome": "ok", "violations": [], "probes": {}, "fired": {}, "fired_log": [], "steps": 0, "vtime": 0.0,
+           "sched_sigs": [], "nontrivial_sigs": [], "state_sigs": [], "digest": "", "deviations": None,
+           "nontrivial": False, "config": config, "sample": None, "harness": "", "evaluations": len(results)}
+    from collections import Counter
+    pr, fr = Counter(), Counter()
+    dg = hashlib.sha256()
+    for r in results:
+        if r["outcome"] not in ("ok",) and out["outcome"] == "ok":
+            out["outcome"] = r["outcome"]
+            out["harness"] = r.get("harness", "")
+        out["violations"] += r["violations"]
+        pr.update(r["probes"])
+        fr.update(r["fired"])
+        out["steps"] += r["steps"]
+        out["vtime"] += r["vtime"]
+        out["sched_sigs"].append(r["sched_sig"])
+        if r.get("nontrivial"):
+            out["nontrivial_sigs"].append(r["sched_sig"])
+        out["state_sigs"] += r.get("state_sigs", [])
+        dg.update((r.get("digest") or "").encode())
+        if out["sample"] is None and r.get("sample") is not None:
+            out["sample"] = r["sample"]
+        if not out["fired_log"]:
+            out["fired_log"] = r.get("fired_log", [])
+    out["probes"], out["fired"] = dict(pr), dict(fr)
+    out["digest"] = dg.hexdigest()
+    return out
